@@ -38,7 +38,8 @@ def step (c : CS) (l : Line) : CS :=
       -- (a volatile blob that itself records failure mode is resumed into failure mode — C17 — and MainInit reports it)
       let blobFail : Bool := l.nat "blobfail" == 1
       let c := if acc ∧ blobFail then branch c "door1/blob-records-failure-mode" else c
-      let c := if acc ∧ !blobFail ∧ (l.nat "maininit" ≠ 0 ∨ l.nat "alive" ≠ 1) then
+      let c := if acc ∧ l.nat "alive" = 3 then branch c "door1/counter-at-its-end" else c
+      let c := if acc ∧ !blobFail ∧ (l.nat "maininit" ≠ 0 ∨ (l.nat "alive" ≠ 1 ∧ l.nat "alive" ≠ 3)) then
                  mism c s!"SPEC[accepted-blob-does-not-start] SetState accepted the {c.kind} blob ({c.desc}) but MainInit={l.nat "maininit"} alive={l.nat "alive"} (failing command {l.str "failcc"}, failure site {l.str "failfn"}:{l.nat "failline"})" else c
       -- the outermost header under the header model: what the model refuses must not be accepted
       let hv := if c.kind = "vol" then Model.Blob.headerRefusal c.head Gen.VOLATILE_STATE_MAGIC Gen.VOLATILE_STATE_VERSION
@@ -56,7 +57,7 @@ def step (c : CS) (l : Line) : CS :=
       -- ValidateState gives the verdict MainInit acts on
       let c := if vOk ≠ mOk ∧ ¬ (vOk ∧ l.nat "blobfail" = 1) then
                  mism c s!"SPEC[validate-disagrees] {c.kind} blob ({c.desc}) held by storage: ValidateState={l.nat "validate"} but MainInit={l.nat "maininit"}" else c
-      let c := if mOk ∧ l.nat "alive" ≠ 1 then mism c s!"SPEC[accepted-blob-does-not-start] MainInit accepted the stored {c.kind} blob ({c.desc}) but the TPM does not answer (alive={l.nat "alive"})" else c
+      let c := if mOk ∧ l.nat "alive" ≠ 1 ∧ l.nat "alive" ≠ 3 then mism c s!"SPEC[accepted-blob-does-not-start] MainInit accepted the stored {c.kind} blob ({c.desc}) but the TPM does not answer (alive={l.nat "alive"})" else c
       -- both doors agree on the verdict for the same bytes
       let c := if (c.setstate == 0) ≠ vOk ∧ c.kind = "perm" then
                  mism c s!"SPEC[doors-disagree] perm blob ({c.desc}): SetState={c.setstate} ValidateState={l.nat "validate"}" else c
